@@ -163,7 +163,10 @@ void prop_c02(hz::Ctx &ctx) {
         bool bad = false;
         for (auto &s : r.slots) {
           if (is_mem_slot(s)) it.ops.push_back(mem_for_slot(sh[si], s, r.size, r.f->kw, optkw));
-          else if (is_imm_slot(s)) { char pol = imm_policy(s); uint64_t val = pol == 'U' ? (2 + rng.below(60)) : (1 + rng.below(100)); it.ops.push_back(wimm(val, imm_space(s, r.size), true)); }
+          else if (is_imm_slot(s)) { char pol = imm_policy(s); uint64_t val = pol == 'U' ? (2 + rng.below(60)) : (1 + rng.below(100));
+            // the immediate's spelling must not reach the memory operand: plain hex, decimal, all 16 hex digits, zero-padded decimal
+            unsigned spl = (unsigned)((si + rep * 3 + rot) % 5); bool hex = spl == 0 || spl == 2 || spl == 4; int pad = spl == 2 ? 16 : spl == 3 ? pad_for(val, false, rng) : spl == 4 ? pad_for(val, true, rng) : 0;
+            it.ops.push_back(wimm(val, imm_space(s, r.size), hex, false, pad)); }
           else { auto c = reg_candidates(s, r.size); if (c.empty()) { bad = true; break; } it.ops.push_back(c[rng.below(c.size())]); }
         }
         if (bad) continue;
@@ -257,7 +260,40 @@ static void prop_c03_exec(hz::Ctx &ctx) {
     if (!e.ok) { hz::Failure f; f.caseid = idb; f.text = txt; f.symptom = "exec-value"; f.detail = e.detail; f.tags = {"group:exec", "mn:mov", "form:exec", "sym:exec-value"}; ctx.fail(f); }
   }
 }
-void prop_c03(hz::Ctx &ctx) { prop_c03_encoding(ctx); bulk_finish(ctx); prop_c03_exec(ctx); }
+// the corner values of both fields together: address shapes with a special base (rbp/r13 need a zero disp8, rsp/r12
+// a SIB byte, none a disp32) x the immediates at the edges of each width, every pair
+static void prop_c03_corners(hz::Ctx &ctx) {
+  hz::Rng rng(ctx.seed ^ 0xc03c);
+  auto nontriv = [](const LineCase &) { return true; };
+  std::vector<WMem> sh;
+  for (int asize : {64, 32}) for (int base : {5, 13, 4, 12, 0, -1}) for (int index : {-1, 1, 13, 5}) for (int dk = 0; dk < 4; dk++) {
+    if (base < 0 && index < 0 && (dk == 0 || asize == 32)) continue;
+    WMem m; m.asize = asize; m.base = base; m.index = index; if (index >= 0) { m.scale = base < 0 ? 2 : (dk & 1) ? 4 : 1; m.scale_written = m.scale != 1; m.scale_first = base < 0; /* documented: [scale*index +- offset] */ }
+    static const int64_t D[] = {0, 0, 0x7f, -0x80}; m.has_disp = dk != 0; m.disp = D[dk]; m.disp_hex = true; sh.push_back(m);
+  }
+  for (auto &r : form_refs([](const Form &f) { return has_imm(f) && has_mem(f); })) {
+    std::string immslot; for (auto &s : r.slots) if (is_imm_slot(s)) immslot = s;
+    char pol = imm_policy(immslot); int space = imm_space(immslot, r.size); int w = space == 8 && pol == 'U' ? 8 : (immslot == "IPUSH" ? 64 : r.size);
+    std::vector<ImmSp> sps;
+    for (uint64_t v : {0ULL, 1ULL, 0x7fULL, 0x80ULL, 0xffULL, 0x100ULL, 0x7fffULL, 0xffffULL, 0x7fffffffULL, 0xffffffffULL, ~0ULL, ~0x7fULL}) for (int neg = 0; neg < 2; neg++) {
+      if (neg && (int64_t)v >= 0) continue;
+      if (!representable(v, neg == 1, w, pol)) continue;
+      sps.push_back({v, neg == 1, true, 0}); if (v == 0 || (v & 1)) sps.push_back({v, neg == 1, false, 0});
+    }
+    for (size_t si = 0; si < sh.size(); si++) for (size_t vi = 0; vi < sps.size(); vi++) {
+      Intent it = base_intent(r); bool bad = false;
+      for (auto &s : r.slots) {
+        if (is_imm_slot(s)) it.ops.push_back(wimm(sps[vi].v, space, sps[vi].hex, sps[vi].neg, 0));
+        else if (is_mem_slot(s)) it.ops.push_back(mem_for_slot(sh[si], s, r.size, r.f->kw, false));
+        else { auto c = reg_candidates(s, r.size); if (c.empty()) { bad = true; break; } WOpd o = c[(si + vi) % c.size()]; if (o.high8) { o.high8 = false; o.reg &= 3; } it.ops.push_back(o); }
+      }
+      if (bad || !encodable(it)) continue;
+      LineCase lc{it, (int)((si * 7 + vi * 5 + ctx.seed) % 12)}; run_case(ctx, lc, nontriv);
+    }
+  }
+  (void)rng;
+}
+void prop_c03(hz::Ctx &ctx) { prop_c03_encoding(ctx); prop_c03_corners(ctx); bulk_finish(ctx); prop_c03_exec(ctx); }
 
 // ---------------------------------------------------------------- C04
 void prop_c04(hz::Ctx &ctx) {
@@ -334,14 +370,16 @@ void prop_c05(hz::Ctx &ctx) {
     for (int kw = 0; kw < 3; kw++) {
       if (kw == 1 && !has_rel8(r.mn)) continue;   // "short" only where a rel8 form exists
       if (kw == 2 && !has_rel32(r.mn)) continue;  // "long" only where a rel32 form exists
-      for (int64_t d : rels) for (int hex = 0; hex < 2; hex++) {
-        LineCase c; c.it = base_intent(r); c.it.brkw = kw; c.it.ops.push_back(wrel(d, hex == 1));
+      for (int64_t d : rels) for (int hex = 0; hex < 4; hex++) {
+        // spellings: decimal, hex, and both with leading zeros (for the small and boundary displacements and a quarter of the rest)
+        int pad = 0; if (hex >= 2) { if (!((d >= -129 && d <= 128) || ((uint64_t)d * 2654435761ULL >> 7) % 4 == 0)) continue; pad = ndigits((uint64_t)(d < 0 ? -d : d), hex == 3) + 1 + (int)(((uint64_t)d >> 1) % 3); }
+        LineCase c; c.it = base_intent(r); c.it.brkw = kw; c.it.ops.push_back(wrel(d, (hex & 1) == 1, pad));
         c.combo = (int)((hz::fnv(r.mn) + (uint64_t)d + ctx.seed) % 12);
         if (!ctx.take()) continue;
         std::string id = serialize(c);
         if (!ctx.begin(id, text(c.it))) continue;
         bool fits8 = d >= -128 && d <= 127;
-        ctx.cls(std::string("kw:") + (kw == 0 ? "none" : kw == 1 ? "short" : "long")); ctx.cls(fits8 ? "d:fits8" : "d:needs32"); if (d < 0) ctx.cls("d:negative");
+        ctx.cls(std::string("kw:") + (kw == 0 ? "none" : kw == 1 ? "short" : "long")); ctx.cls(fits8 ? "d:fits8" : "d:needs32"); if (d < 0) ctx.cls("d:negative"); if (pad) ctx.cls("d:leading-zeros");
         if (d < 0 || !fits8 || kw) ctx.nontrivial(id);
         RelVerdict rv = check_rel(c);
         if (ctx.want_sample()) ctx.put_sample(text(c.it) + " -> " + (rv.res.rc == 0 ? x86::hex(rv.res.bytes.data(), rv.res.bytes.size()) : std::string("EXIT_FAILURE")));
